@@ -201,8 +201,9 @@ func TestC20(t *testing.T) {
 		applyDuringRotation(r)
 		overlappingApplies(r)
 		parsedTwice(r)
+		presetByteFields(r)
 	}
-	r.Require("overlapping_applies", "structs_parsed_twice", "applies_during_a_rotation", "applies_with_many_failing_lookups", "untagged_embedded_pointers_checked", "applies_to_another_store", "applies_with_a_hanging_field", "dual_unmarshaler_fields", "stores_over_several_structs", "tagged_embedded_fields", "populated_structs", "rejected_shapes", "rejected_arguments", "failing_field_cases", "bytes_fields_mutated", "secret_fields_followed_poll", "shared_secret_fields", "embedded_structs", "untagged_fields_checked", "second_applies")
+	r.Require("preset_byte_fields_checked", "overlapping_applies", "structs_parsed_twice", "applies_during_a_rotation", "applies_with_many_failing_lookups", "untagged_embedded_pointers_checked", "applies_to_another_store", "applies_with_a_hanging_field", "dual_unmarshaler_fields", "stores_over_several_structs", "tagged_embedded_fields", "populated_structs", "rejected_shapes", "rejected_arguments", "failing_field_cases", "bytes_fields_mutated", "secret_fields_followed_poll", "shared_secret_fields", "embedded_structs", "untagged_fields_checked", "second_applies")
 	r.Rule("struct types generated at run time: 1-8 fields in random order from {[]byte, string, setec.Secret, value/pointer BinaryUnmarshaler, ',json' struct/map/int} + unsupported {int, []string, *string, map[string]string, bool, empty tag name} + untagged fields of 5 kinds with sentinel contents, optionally one embedded predeclared struct; prefixes {'', a, a/b, dev/prog}; several fields may name the same secret; scripted failing fields (bad JSON, UnmarshalBinary error); via StoreConfig.Structs and via ParseFields+Apply. Distinct = (entry point, sorted set of field kinds, has failing field, prefix)")
 }
 
@@ -1482,4 +1483,56 @@ func parsedTwice(r *evid.Run) {
 			st.Close()
 		}
 	}
+}
+
+// presetByteFields: the []byte fields of the struct are not nil when it is handed over - the program initialised
+// several of them, an untagged one and a variable of its own from ONE placeholder slice with room to spare.
+// Each tagged field ends up with its own secret; the untagged field and the program's variable are untouched;
+// and a slice taken from a field before a rotation keeps the bytes it had.
+func presetByteFields(r *evid.Run) {
+	svc := fakesvc.New()
+	svc.Set("k/sign", 1, []byte("signing-key-GENERATION-1"))
+	svc.Set("k/enc", 1, []byte("encryption-key-1"))
+	placeholder := make([]byte, 11, 64)
+	copy(placeholder, "placeholder")
+	var v struct {
+		Sign     []byte `setec:"sign"`
+		Enc      []byte `setec:"enc"`
+		Fallback []byte
+	}
+	v.Sign, v.Enc, v.Fallback = placeholder, placeholder, placeholder
+	st, err := setec.NewStore(context.Background(), setec.StoreConfig{Client: svc, Structs: []setec.Struct{{Value: &v, Prefix: "k"}}, PollInterval: -1, Logf: func(string, ...any) {}})
+	if err != nil {
+		r.Violation("spurious-error", -1, err.Error(), nil)
+		return
+	}
+	defer st.Close()
+	f, _ := setec.ParseFields(&v, "k")
+	check := func(when, sign, enc string) bool {
+		r.Eval(1)
+		r.Count("preset_byte_fields_checked", 1)
+		if string(v.Sign) != sign || string(v.Enc) != enc {
+			r.Violation("field-value-wrong", -1, fmt.Sprintf("%s: Sign holds %q (want %q), Enc holds %q (want %q)", when, v.Sign, sign, v.Enc, enc), nil)
+			return false
+		}
+		if string(v.Fallback) != "placeholder" || string(placeholder) != "placeholder" {
+			r.Violation("untagged-field-touched", -1, fmt.Sprintf("%s: the untagged field holds %q and the program's own placeholder %q", when, v.Fallback, placeholder), nil)
+			return false
+		}
+		return true
+	}
+	if !check("struct whose []byte fields were preset from one shared slice, after NewStore", "signing-key-GENERATION-1", "encryption-key-1") {
+		return
+	}
+	kept := v.Sign
+	svc.Set("k/sign", 2, []byte("signing-key-GEN-2"))
+	st.Refresh(context.Background())
+	if err := f.Apply(context.Background(), st); err != nil {
+		r.Violation("spurious-error", -1, err.Error(), nil)
+		return
+	}
+	if check("after a rotation to a shorter value and a second Apply", "signing-key-GEN-2", "encryption-key-1") && string(kept) != "signing-key-GENERATION-1" {
+		r.Violation("bytes-field-aliases-store", -1, fmt.Sprintf("a slice taken from the field before the rotation now reads %q: the second Apply wrote into storage it had handed out", kept), nil)
+	}
+	r.Distinct("preset byte fields")
 }
